@@ -43,9 +43,10 @@ theorem Manager.startF_res (h : AttachSafe env md cfg) (d : Data C V N P) :
 end steps
 
 /-- what the source says on this run: the in-process loop of `run()` calls `_start_with_param_data` inside a `try` whose
-    handler catches `Exception` and does not re-raise; both pooled branches collect their tasks with `.wait()` -/
+    handler catches `Exception` and does not re-raise; both pooled branches collect their tasks with `.wait()` (one flag each) -/
 theorem C19_failure_handling_pinned :
-    FailMode.current = ⟨true, true⟩ ∧ Gen.managerCatchesInProcessFailure = true ∧ Gen.managerPoolWaitsForTasks = true := by
+    FailMode.current = ⟨true, true, true⟩ ∧ Gen.managerCatchesInProcessFailure = true ∧
+    Gen.managerForkPoolWaitsForTasks = true ∧ Gen.managerArgsPoolWaitsForTasks = true := by
   decide
 
 /-- **sequential path with the handler**: every strategy's result is the solo one — none if it fails alone, its solo
@@ -91,7 +92,7 @@ theorem C19_windows_pool_failure_isolated (env : Env M P) (md : Mode) (cfg : M) 
 theorem Manager.managerRunF_not_aborted {env : Env M P} {md : Mode} {threads cpu : Nat} {windows ctxSet : Bool}
     {assign : Nat → Nat} {finished : Nat → Bool} {cfg : Option M} {d : Option (Data C V N P)}
     {strats : List (FStrat M C V N P O)} (res : List (Option O)) :
-    managerRunF env md ⟨true, true⟩ threads cpu windows ctxSet assign finished cfg d strats ≠ .aborted res := by
+    managerRunF env md ⟨true, true, true⟩ threads cpu windows ctxSet assign finished cfg d strats ≠ .aborted res := by
   unfold managerRunF
   cases cfg <;> cases d <;> simp only [seqOutcome, poolOutcome, Bool.not_true, Bool.false_and, Bool.true_or,
     Bool.false_eq_true, if_false, if_true] <;> (try simp) <;> (repeat' split) <;> simp
@@ -99,7 +100,7 @@ theorem Manager.managerRunF_not_aborted {env : Env M P} {md : Mode} {threads cpu
 /-- the branches of `run()` that return, with the handler and `.wait()` -/
 theorem Manager.managerRunF_done {env : Env M P} {md : Mode} {threads cpu : Nat} {windows ctxSet : Bool} {assign : Nat → Nat}
     {finished : Nat → Bool} {cfg : M} {d : Data C V N P} {strats : List (FStrat M C V N P O)} {res : List (Option O)}
-    (h : managerRunF env md ⟨true, true⟩ threads cpu windows ctxSet assign finished (some cfg) (some d) strats = .done res) :
+    (h : managerRunF env md ⟨true, true, true⟩ threads cpu windows ctxSet assign finished (some cfg) (some d) strats = .done res) :
     (strats = [] ∧ res = []) ∨ res = runSeqF env md true cfg d strats ∨ res = runPoolArgsF env md cfg d strats ∨
     res = runPoolF env md cfg assign (fun _ => d) 0 strats := by
   unfold managerRunF at h
@@ -133,7 +134,7 @@ theorem Manager.managerRunF_done {env : Env M P} {md : Mode} {threads cpu : Nat}
 theorem C19_manager_failure_isolated_of_safe (env : Env M P) (md : Mode) (threads cpu : Nat) (windows ctxSet : Bool)
     (assign : Nat → Nat) (finished : Nat → Bool) (cfg : M) (d : Data C V N P) (strats : List (FStrat M C V N P O))
     (hm : MarketsSafe env md cfg (plain strats)) (hd : DataSafe env md d (plain strats)) (res : List (Option O))
-    (h : managerRunF env md ⟨true, true⟩ threads cpu windows ctxSet assign finished (some cfg) (some d) strats = .done res) :
+    (h : managerRunF env md ⟨true, true, true⟩ threads cpu windows ctxSet assign finished (some cfg) (some d) strats = .done res) :
     res = specF cfg d strats := by
   have ha : strats ≠ [] → AttachSafe env md cfg := by
     intro hne
@@ -307,12 +308,12 @@ def Manager.fresh : PM × PData := ((0, 0, true), pd0)
     differs.  With the handler the same call gives everybody the solo result. -/
 theorem C19_fails_when_inprocess_failure_propagates :
     (¬ (∀ (strats : List PFStrat),
-        (managerRunF (probeEnv false false) (Mode.current true) ⟨false, true⟩ 1 1 false false id (fun _ => true)
+        (managerRunF (probeEnv false false) (Mode.current true) ⟨false, true, true⟩ 1 1 false false id (fun _ => true)
           (some (0, 0, true)) (some pd0) strats).results = some (specF (0, 0, true) pd0 strats))) ∧
-    managerRunF (probeEnv false false) (Mode.current true) ⟨false, true⟩ 1 1 false false id (fun _ => true)
+    managerRunF (probeEnv false false) (Mode.current true) ⟨false, true, true⟩ 1 1 false false id (fun _ => true)
       (some (0, 0, true)) (some pd0) [adder, raiser, idle] = .aborted [some fresh, none, none] ∧
     specF (0, 0, true) pd0 [adder, raiser, idle] = [some fresh, none, some fresh] ∧
-    managerRunF (probeEnv false false) (Mode.current true) ⟨true, true⟩ 1 1 false false id (fun _ => true)
+    managerRunF (probeEnv false false) (Mode.current true) ⟨true, true, true⟩ 1 1 false false id (fun _ => true)
       (some (0, 0, true)) (some pd0) [adder, raiser, idle] = .done [some fresh, none, some fresh] := by
   refine ⟨?_, by decide, by decide, by decide⟩
   intro h
@@ -320,32 +321,44 @@ theorem C19_fails_when_inprocess_failure_propagates :
   revert this
   decide
 
-/-- the pooled variant: were the tasks fetched with `.get()` instead of `.wait()`, the first failing task would re-raise
-    inside the `with Pool` block and the workers would be terminated: a task that is not finished by then (here: none
-    of the later ones) has no result although its backtest succeeds alone — on both pooled branches.  The handler in
-    the in-process loop does not help there. -/
+/-- the pooled variant: were the tasks of a pooled branch fetched with `.get()` instead of `.wait()`, the first failing
+    task would re-raise inside the `with Pool` block and the workers would be terminated: a task that is not finished by
+    then (here: none of the later ones) has no result although its backtest succeeds alone — on the forked branch, and
+    on the Windows branch; the handler in the in-process loop does not help there.  Each branch has its own flag, which
+    matters on that branch only. -/
 theorem C19_fails_when_pool_tasks_are_fetched_with_get :
-    (¬ (∀ (windows : Bool) (finished : Nat → Bool) (strats : List PFStrat),
-        (managerRunF (probeEnv false false) (Mode.current true) ⟨true, false⟩ 2 2 windows false (fun i => i % 2) finished
+    (¬ (∀ (finished : Nat → Bool) (strats : List PFStrat),
+        (managerRunF (probeEnv false false) (Mode.current true) ⟨true, false, true⟩ 2 2 false false (fun i => i % 2) finished
           (some (0, 0, true)) (some pd0) strats).results = some (specF (0, 0, true) pd0 strats))) ∧
-    (∀ windows, managerRunF (probeEnv false false) (Mode.current true) ⟨true, false⟩ 2 2 windows false (fun i => i % 2) (fun _ => false)
-      (some (0, 0, true)) (some pd0) [adder, raiser, idle] = .aborted [some fresh, none, none]) ∧
-    (∀ windows, managerRunF (probeEnv false false) (Mode.current true) ⟨true, true⟩ 2 2 windows false (fun i => i % 2) (fun _ => false)
+    (¬ (∀ (finished : Nat → Bool) (strats : List PFStrat),
+        (managerRunF (probeEnv false false) (Mode.current true) ⟨true, true, false⟩ 2 2 true false (fun i => i % 2) finished
+          (some (0, 0, true)) (some pd0) strats).results = some (specF (0, 0, true) pd0 strats))) ∧
+    managerRunF (probeEnv false false) (Mode.current true) ⟨true, false, true⟩ 2 2 false false (fun i => i % 2) (fun _ => false)
+      (some (0, 0, true)) (some pd0) [adder, raiser, idle] = .aborted [some fresh, none, none] ∧
+    managerRunF (probeEnv false false) (Mode.current true) ⟨true, true, false⟩ 2 2 true false (fun i => i % 2) (fun _ => false)
+      (some (0, 0, true)) (some pd0) [adder, raiser, idle] = .aborted [some fresh, none, none] ∧
+    managerRunF (probeEnv false false) (Mode.current true) ⟨true, false, true⟩ 2 2 true false (fun i => i % 2) (fun _ => false)
+      (some (0, 0, true)) (some pd0) [adder, raiser, idle] = .done [some fresh, none, some fresh] ∧
+    (∀ windows, managerRunF (probeEnv false false) (Mode.current true) ⟨true, true, true⟩ 2 2 windows false (fun i => i % 2) (fun _ => false)
       (some (0, 0, true)) (some pd0) [adder, raiser, idle] = .done [some fresh, none, some fresh]) := by
-  refine ⟨?_, by decide, by decide⟩
-  intro h
-  have := h false (fun _ => false) [adder, raiser, idle]
-  revert this
-  decide
+  refine ⟨?_, ?_, by decide, by decide, by decide, by decide⟩
+  · intro h
+    have := h (fun _ => false) [adder, raiser, idle]
+    revert this
+    decide
+  · intro h
+    have := h (fun _ => false) [adder, raiser, idle]
+    revert this
+    decide
 
 /-- failure isolation needs the copies as well: with the configured markets attached directly (the original `_start`),
     a strategy that fails only when it finds somebody else's position — alone it succeeds — fails under the manager
     after a strategy that opens one, handler or not -/
 theorem C19_fails_when_a_leak_makes_a_strategy_fail :
     specF (0, 0, true) pd0 [adder, probeFStrat eff0 false true] = [some fresh, some fresh] ∧
-    managerRunF (probeEnv false false) (Mode.original true) ⟨true, true⟩ 1 1 false false id (fun _ => true)
+    managerRunF (probeEnv false false) (Mode.original true) ⟨true, true, true⟩ 1 1 false false id (fun _ => true)
       (some (0, 0, true)) (some pd0) [adder, probeFStrat eff0 false true] = .done [some fresh, none] ∧
-    managerRunF (probeEnv false false) (Mode.current true) ⟨true, true⟩ 1 1 false false id (fun _ => true)
+    managerRunF (probeEnv false false) (Mode.current true) ⟨true, true, true⟩ 1 1 false false id (fun _ => true)
       (some (0, 0, true)) (some pd0) [adder, probeFStrat eff0 false true] = .done [some fresh, some fresh] := by
   decide
 
